@@ -753,6 +753,28 @@ def c17(ctx: Ctx) -> None:
         ctx.check('C17-R5', f'return {norm(rn.ast.value)} only after {lp}.is_running() was observed true', g3.loc(rn), w is None and bool(rb) and bool(sub),
                   'the caller gets the stopper only once the loop runs', 'loop_in_thread can return before the loop is running',
                   witness=render(g3, w), construct=construct_key('loop_in_thread', 'returns early'))
+    # the executor that carries the work: the library's ThreadPoolExecutor hands *every* outcome of the submitted callable to the
+    # future (its work item catches BaseException).  A package class in its place is checked for the one decidable hazard: a
+    # worker that completes the future under `except Exception` only - a CancelledError / custom BaseException out of
+    # run_until_complete then kills the worker, the future stays pending and the caller of ensure_aw never completes
+    uA = p.unit(A)
+    for st_ in uA.tree.body:
+        if isinstance(st_, ast.Assign) and len(st_.targets) == 1 and isinstance(st_.targets[0], ast.Name) and isinstance(st_.value, ast.Call) \
+                and isinstance(st_.value.func, ast.Name):
+            pc_ = next((c for c in uA.classes() if c.name == st_.value.func.id), None)
+            used_ = any(isinstance(x, ast.Attribute) and x.attr in ('submit', 'map') and isinstance(x.value, ast.Name) and x.value.id == st_.targets[0].id
+                        for fn_ in (ea, lit) for x in ast.walk(fn_.node))
+            if pc_ is None or not used_:
+                continue
+            for h_ in [x for x in ast.walk(pc_.node) if isinstance(x, ast.ExceptHandler)]:
+                sets_ = any(isinstance(x, ast.Attribute) and x.attr == 'set_exception' for x in ast.walk(h_))
+                hn_ = norm(h_.type) if h_.type is not None else 'BaseException'
+                if sets_:
+                    ctx.check('C17-R4', f'{pc_.name}: the worker hands failures to the future under `except {hn_}`', f'{A}:{h_.lineno}',
+                              hn_ in ('BaseException',), 'every outcome of the submitted call reaches the future',
+                              f'the home-made executor completes its future only for `{hn_}`: an outcome that is a BaseException (a cancelled task\'s '
+                              'CancelledError, SystemExit) kills the worker thread and leaves the future pending - the caller of ensure_aw waits for ever',
+                              construct=construct_key(pc_.qualname, 'executor drops BaseException'))
     # R7: the worker runs the loop once: when run_forever() has returned (the stopper asked for it) nothing runs the loop again -
     # what was pending on it stays frozen, which is what callers that saw `not loop.is_running()` rely on
     ctx.rule('C17-R7', 'once the background run of the loop has returned, loop_in_thread does not run that loop again', 1)
@@ -795,6 +817,10 @@ def c17(ctx: Ctx) -> None:
 # ---------------------------------------------------------------------------
 # C18
 # ---------------------------------------------------------------------------
+
+def gres_path(unit, scope: Scope, e: ast.AST) -> Optional[str]:
+    return Resolver(scope).path(e)
+
 
 class _It:
     """An iterator value in the affine-use analysis."""
@@ -1096,6 +1122,32 @@ def c18(ctx: Ctx) -> None:
                           construct=construct_key(sc.qualname, 'bare next in a generator'))
     if not n7:
         ctx.holds('C18-R7', 'no generator among split and its helpers calls next() without a default', where, examined=len(reach_))
+    # R8: home-made stream plumbing under split (a local `compress`, `tee` ...) is outside the trusted library semantics; two
+    # hazards in it are decidable: exhaustion told from an element by a default that an element can be, and a bounded buffer
+    ctx.rule('C18-R8', 'helpers of split tell exhaustion from an element only by a private marker, and buffer without a bound', 1)
+    n8 = 0
+    for sc in reach_:
+        if sc is f:
+            continue
+        for x in ast.walk(sc.node):
+            if isinstance(x, ast.Call) and isinstance(x.func, ast.Name) and x.func.id == 'next' and len(x.args) == 2:
+                dflt = x.args[1]
+                private = isinstance(dflt, ast.Name) and any(
+                    isinstance(st, ast.Assign) and isinstance(st.targets[0], ast.Name) and st.targets[0].id == dflt.id and isinstance(st.value, ast.Call)
+                    and isinstance(st.value.func, ast.Name) and st.value.func.id == 'object' for st in list(uI.tree.body) + list(ast.walk(sc.node)) if isinstance(st, ast.Assign))
+                if not private:
+                    n8 += 1
+                    ctx.violation('C18-R8', f'{sc.qualname}: {norm(x)}', f'{IT}:{x.lineno}',
+                                  f'the end of a stream is recognised by the default {norm(dflt)}, which an element can be: the first such element ends '
+                                  'both results early and everything after it is dropped', construct=construct_key(sc.qualname, 'non-private exhaustion marker'))
+            if isinstance(x, ast.Call) and (gres_path(uI, sc, x.func) == 'collections.deque') and any(
+                    k.arg == 'maxlen' and not (isinstance(k.value, ast.Constant) and k.value.value in (None, 0)) for k in x.keywords):
+                n8 += 1
+                ctx.violation('C18-R8', f'{sc.qualname}: {norm(x)}', f'{IT}:{x.lineno}',
+                              'elements are buffered in a bounded deque: when one result runs ahead by more than the bound, the elements the other '
+                              'result has not read yet are evicted', construct=construct_key(sc.qualname, 'bounded buffer'))
+    if not n8:
+        ctx.holds('C18-R8', f'{[sc.qualname for sc in reach_ if sc is not f] or "no package helper under split"}', where, examined=max(1, len(reach_)))
     # R5
     ex = p.func(IT, 'exhaust')
     ge = build(ex, p)
@@ -1733,6 +1785,31 @@ def c20(ctx: Ctx) -> None:
     ctx.check('C20-R1', f'{norm(c)}', g.loc(gcalls[0]), star and okr, 'every awaitable runs to completion; failures become values',
               'a failing awaitable propagates at once (others are abandoned) or some awaitables are not gathered',
               construct=construct_key('gather_excs', c))
+    # ... and they are the caller's awaitables and the caller's filter: neither parameter is re-bound (wrapping every awaitable in a
+    # throttling / logging coroutine changes what runs and what its failures are), and the filter class is not refused for being
+    # what the signature allows (any BaseException subclass)
+    for prm_ in (awsp, onlyp):
+        rb_ = [n for n in g.nodes if n.kind == 'store_name' and n.meta['name'] == prm_ and not n.meta.get('inlined_param')]
+        ctx.check('C20-R1', f'gather_excs: `{prm_}` is used as given ({len(rb_)} re-binding(s))', g.loc(rb_[0]) if rb_ else where, not rb_,
+                  'the caller\'s own objects are gathered / tested', f'`{prm_}` is replaced before it is used: what is gathered (or filtered by) is something '
+                  'built from the caller\'s argument - wrappers add failures of their own and change identity-based de-duplication',
+                  construct=construct_key('gather_excs', 'parameter re-bound', prm_))
+    gi_ = build(f, p, inline_module_helpers=True)
+    for b_ in [n for n in gi_.nodes if n.kind == 'branch']:
+        t_ = resolve(gi_, b_, b_.meta['test'], keep=(onlyp,))
+        neg_ = False
+        while isinstance(t_, ast.UnaryOp) and isinstance(t_.op, ast.Not):
+            t_, neg_ = t_.operand, not neg_
+        if isinstance(t_, ast.Call) and isinstance(t_.func, ast.Name) and t_.func.id == 'issubclass' and len(t_.args) == 2 \
+                and any(isinstance(x, ast.Name) and x.id == onlyp for x in ast.walk(t_.args[0])):
+            cls_ok = (gi_.res.path(t_.args[1]) or norm(t_.args[1])) in ('builtins.BaseException', 'BaseException')
+            refuse_lab = 'true' if neg_ else 'false'
+            raises_ = [n for n in gi_.nodes if n.kind == 'raise']
+            w_ = find_path(gi_, [], raises_, start_edges=[e for e in gi_.succ[b_.id] if e.label == refuse_lab], edge_ok=_nonexc) if raises_ else None
+            ctx.check('C20-R1', f'gather_excs: filter check {norm(t_)}', gi_.loc(b_), cls_ok or w_ is None,
+                      'only classes that are no exception classes at all are refused',
+                      f'a filter class that is a BaseException but not a {norm(t_.args[1])} is refused before anything runs: nothing is gathered, nothing yielded',
+                      witness=render(gi_, w_), construct=construct_key('gather_excs', 'filter class refused', t_.args[1]))
     loops = [n for n in g.nodes if n.kind == 'for_iter']
     okl = False
     if len(loops) == 1:
